@@ -11,8 +11,8 @@ RULE = (
     "lock, positions of either sign, non-zero shifts, column permutation, non-default row labels) x n in 1..64 given as "
     "int, float, 'Cn' or 'cn' x subunit offset s (general / on the axis (0,0,z) / zero / in the xy-plane). Oracle: "
     "exactly n outputs per parent (geom5 = parent id), subunit indices geom2 = 1..n each once per parent; the output "
-    "with geom2 = k+1 has orientation R_parent Rz(360k/n) (explicit matrices, 1e-6) and complete position p_parent + "
-    "R_out s (1e-6), so p_out - R_out s is the parent's centre for all siblings; subtomogram numbers are exactly 1..nN; "
+    "with geom2 = k+1 has orientation R_parent Rz(360k/n) (explicit matrices, 1e-9; 1e-6 within 1e-4 rad of gimbal lock) and complete position p_parent + "
+    "R_out s (1e-9 relative; + 1e-6 |s| near gimbal lock), so p_out - R_out s is the parent's centre for all siblings; subtomogram numbers are exactly 1..nN; "
     "x,y,z integral with |shift| <= 0.5; every other field copied from the parent. Non-trivial: (n does not divide 360 "
     "or n > 12) and s off the axis."
 )
@@ -123,14 +123,17 @@ def run(case):
             return out
         seen[(i, k)] = j
         Rexp = R0[i] @ oracle.Rz(360.0 * k / n)
-        if np.abs(Rout[j] - Rexp).max() > 1e-6:
+        # 1e-9 everywhere except within 1e-4 rad of gimbal lock, where re-encoding as Euler angles costs up to ~3e-8 rad
+        near = np.hypot(Rexp[2, 0], Rexp[2, 1]) < 1e-4
+        rtol = 1e-6 if near else 1e-9
+        if np.abs(Rout[j] - Rexp).max() > rtol:
             # is it another sibling's orientation (label/row mix-up) or none of them?
-            sib = [kk for kk in range(n) if np.abs(Rout[j] - R0[i] @ oracle.Rz(360.0 * kk / n)).max() <= 1e-6]
+            sib = [kk for kk in range(n) if np.abs(Rout[j] - R0[i] @ oracle.Rz(360.0 * kk / n)).max() <= rtol]
             out.fail("orientation_is_another_subunits" if sib else "orientation_not_parent_times_Rz",
                      f"parent {pid} subunit {k + 1}/{n}: matrix error {np.abs(Rout[j] - Rexp).max():.3e}" + (f" (matches subunit {sib[0] + 1})" if sib else ""))
             return out
         pexp = P0[i] + Rexp @ s
-        if np.abs(Pout[j] - pexp).max() > 1e-6 * max(1.0, np.abs(pexp).max()):
+        if np.abs(Pout[j] - pexp).max() > 1e-9 * max(1.0, np.abs(pexp).max(), np.abs(s).max()) + (1e-6 * np.abs(s).max() if near else 0.0):
             out.fail("position_not_centre_plus_rotated_offset", f"parent {pid} subunit {k + 1}/{n}: got {Pout[j].tolist()} expected {pexp.tolist()}")
             return out
         if not np.array_equal(np.nan_to_num(got_other[j]), np.nan_to_num(src_other[i])):
